@@ -248,10 +248,11 @@ type agx struct {
 	// outcome of the last operation (for vacuity accounting)
 	outcome string
 	// c15: run the shadow-log comparison and the orphan-record rule instead of the model comparison.
-	c15     bool
-	maxMint int64 // largest truncation time so far
-	obs     func(outcome string)
-	walCache *agxWal
+	c15          bool
+	maxMint      int64 // largest truncation time so far
+	mintWentBack bool  // some truncation used a smaller time than an earlier one
+	obs          func(outcome string)
+	walCache     *agxWal
 }
 
 func (c agxCfg) options() *Options {
@@ -586,6 +587,8 @@ func (x *agx) Apply(op string, check bool) (fail *vx.Fail) {
 		}
 		if mint > x.maxMint {
 			x.maxMint = mint
+		} else if mint < x.maxMint {
+			x.mintWentBack = true
 		}
 		_, cpAfter, err := wlog.LastCheckpoint(x.walDir())
 		x.outcome = fmt.Sprintf("truncate/cp=%v/gc=%v/pending=%v", err == nil && cpAfter != cpBefore, liveBefore != x.liveSeries(), len(x.m.pending) > 0)
@@ -897,15 +900,16 @@ func (x *agx) checkC15(w *agxWal) *vx.Fail {
 			continue
 		}
 		orphan[fmt.Sprintf("%s@%d=%s", it.Kind, it.T, it.Val)]++
-		sig := "agent-record-without-preceding-series-record/before-truncation-time"
-		if it.T >= owedFrom {
-			// which series is it? the untruncated log knows; name the known precondition if one holds
-			known := x.m.known("s1")
-			if known == "" {
-				known = x.m.known("s2")
-			}
-			sig = "agent-record-without-preceding-series-record/at-or-after-truncation-time" + known
+		// The agent tracks collected series (db.deleted) precisely so that no sample is left
+		// without its series record, old or not. Known preconditions get their own signature.
+		known := x.m.known("s1")
+		if known == "" {
+			known = x.m.known("s2")
 		}
+		if known == "" && x.mintWentBack {
+			known = "/truncation-time-went-backwards"
+		}
+		sig := "agent-record-without-preceding-series-record" + known
 		msg := fmt.Sprintf("after %s: WAL (seg %d, -1=checkpoint) holds a %s record t=%d for ref %d, but no series record for that ref precedes it in replay order (truncation time %d). history %v; wal: %s", x.lastOp, it.Seg, it.Kind, it.T, it.Ref, owedFrom, x.hist, w.Digest)
 		if x.soft != nil {
 			x.soft(sig, msg)
@@ -993,7 +997,7 @@ func (x *agx) Key() string {
 	for _, s := range []string{"s1", "s2"} {
 		rf = append(rf, fmt.Sprint(x.refs[s]))
 	}
-	fmt.Fprintf(&sb, "|refs %v|max %d", rf, x.maxMint)
+	fmt.Fprintf(&sb, "|refs %v|max %d/%v", rf, x.maxMint, x.mintWentBack)
 	w, f := x.walCache, (*vx.Fail)(nil)
 	if w == nil {
 		w, f = agxDecode(x.walDir(), x.cfg.ST, true)
